@@ -661,6 +661,7 @@ impl Check for C03 {
         let mut cfg = GenCfg::full(nodes);
         cfg.focus = [Focus::None, Focus::Generics, Focus::Closures, Focus::Effects, Focus::Scopes, Focus::Traits][(index % 6) as usize];
         cfg.traits = cfg.focus == Focus::Traits || (index / 6) % 3 == 0;
+        cfg.discards = index % 2 == 0;
         if phase == "illtyped" {
             // the injected statement is chosen with the LAST bytes so that the
             // program and the mutation shrink independently
